@@ -52,16 +52,26 @@ def meta_oracle(value):
 KEYS = ["k", "a-b"]
 
 
+FREE = ALPH + ":"  # free comment text may also hold a colon that does not follow a key word
+
+
 def pick(i):
     return "" if i < 0 else ALPH[i]
+
+
+def pickf(i):
+    return "" if i < 0 else FREE[i]
 
 
 def idx_ok(f0, f1, ki, v0, v1, v2, v3, nv) -> bool:
     n = len(ALPH)
     if not (0 <= ki < len(KEYS)):
         return False
-    for x in (f0, f1, v0, v1, v2, v3):
+    for x in (v0, v1, v2, v3):
         if not (-1 <= x < n):
+            return False
+    for x in (f0, f1):
+        if not (-1 <= x < len(FREE)):
             return False
     if f0 < 0 and f1 >= 0:
         return False
@@ -84,21 +94,21 @@ def meta_oracle_idx(v0, v1, v2, v3):
     "O1-metadata",
     pre=["idx_ok(f0, f1, ki, v0, v1, v2, v3, {NV})"],
     post="_ == meta_oracle_idx(v0, v1, v2, v3)",
-    bound="outer comment '~ <free> <key>: <value> ~' before a concrete csvpath; free text (0-2 chars) and value (0-NV chars) are "
+    bound="outer comment '~ <free> <key>: <value> ~' before a concrete csvpath; free text (0-2 chars, over ALPH plus a free-standing ':') and value (0-NV chars) are "
     "chosen character by character by symbolic indexes into ALPH (representatives of every character class the parser "
     "distinguishes: alphanumeric, - _, blank, newline, punctuation), key by a symbolic index into KEYS; the "
     "scan/match text must come back unchanged and metadata[key] must be the trimmed value (None when blank). The solver "
     "drives the walk over this finite box (symbolic strings made each path cost >1 s of string-theory solving: measured, abandoned)",
     outside="characters outside ALPH; several symbolic fields in one comment; ':' inside values; longer texts",
     encodes=["csvpath/util/metadata_parser.py:MetadataParser.extract_csvpath_and_comment/collect_metadata"],
-    tiers={"quick": {"timeout": 900, "K": {"NV": 2}, "shards": product(f0=[-1, 0, 1, 2, 3, 4, 5], f1=[-1])}, "thorough": {"timeout": 6000, "K": {"NV": 4}, "shards": product(f0=[-1, 0, 1, 2, 3, 4, 5], f1=[-1, 0, 3, 5])}},
+    tiers={"quick": {"timeout": 900, "K": {"NV": 3}, "shards": product(f0=[-1, 0, 1, 2, 3, 4, 5, 6], f1=[-1])}, "thorough": {"timeout": 6000, "K": {"NV": 4}, "shards": product(f0=[-1, 0, 1, 2, 3, 4, 5, 6], f1=[-1, 0, 3, 5, 6])}},
 )
 def metadata(f0: int, f1: int, ki: int, v0: int, v1: int, v2: int, v3: int) -> Tuple[str, Optional[str]]:
     with NoTracing():
         cp = CsvPath(print_default=False)
         mp = MetadataParser(cp)
     key = KEYS[ki]
-    text = "~ " + pick(f0) + pick(f1) + " " + key + ": " + pick(v0) + pick(v1) + pick(v2) + pick(v3) + " ~ " + PATH
+    text = "~ " + pickf(f0) + pickf(f1) + " " + key + ": " + pick(v0) + pick(v1) + pick(v2) + pick(v3) + " ~ " + PATH
     path2, comment = mp.extract_csvpath_and_comment(text)
     inst = _Holder()
     mp.collect_metadata(inst, comment.strip())
